@@ -18,7 +18,7 @@ ANCHORS = ["bitarray.py::BitArray.pack", "bitarray.py::BitArray.unpack", "bitarr
 BITS = [1, 2, 4, 8, 16, 32]
 DTS = ["int8", "int16", "int32", "int64", "uint8", "uint16", "uint32", "uint64", ">i8", ">u8", ">i4", ">u2"]      # also non-native byte order
 FLOOR_TAGS = ["b:%d" % b for b in BITS] + ["len:multiple", "len:multiple+1", "len:multiple-1", "len:<register", "w:1", "w:full", "w:mid", "style:rand", "style:ones", "style:alt",
-                                           "straddle", "twin"]
+                                           "straddle", "twin", "wtype:numpy", "w*b:54..63"]
 FLOOR_MONITORS = ["c13:unpack", "c13:getint", "c13:getlist", "c13:window", "c13:unpack-again"]
 N_RANDOM = {"quick": 24000, "thorough": 200000}
 
@@ -37,7 +37,7 @@ def run(case):
     style = case.get("style", "rand")
     tags = ["b:%d" % b, "dt:" + dt.str, "style:" + style,
             "len:multiple" if L % per == 0 else ("len:multiple+1" if L % per == 1 and L > per else ("len:multiple-1" if L % per == per - 1 else ("len:<register" if L < per else "len:other"))),
-            "w:1" if w == 1 else ("w:full" if w == per else "w:mid")]
+            "w:1" if w == 1 else ("w:full" if w == per else "w:mid")] + (["wtype:numpy"] if case.get("wtype") else []) + (["w*b:54..63"] if 54 <= w * b <= 63 else [])
     if L > per and w > 1:
         tags.append("straddle")
     p = attempt(BA.pack, arr, b)
@@ -87,7 +87,9 @@ def run(case):
 
     def obs_w():
         CTX.tick("c13:window", w > 1)
-        o = attempt(lambda: ba.sliding_window(w))
+        wt = case.get("wtype")
+        w_ = w if not wt else np.dtype(wt).type(w)      # the window size as a numpy integer (what np.arange / rng.integers / a shape hand out)
+        o = attempt(lambda: ba.sliding_window(w_))
         if o.ok:
             wv = [int(x) for x in np.asarray(o.value).tolist()]
             scribble(o.value)
@@ -105,7 +107,7 @@ def run(case):
     if case.get("twin"):
         # a second packed array with another bit width is created and used in between: objects must not share state
         tb, tvals = case["twin"]["b"], case["twin"]["vals"]
-        twin = BA.pack(np.array(tvals, dtype=np.uint64), tb)
+        twin = BA.pack(np.array(tvals, dtype=case["twin"].get("dtype", "uint64")), tb)
         tags.append("twin")
     for ch in case["order"]:
         done += ch
@@ -141,7 +143,7 @@ def gen_case(rng, b, L, w=None, style=None, dtype=None):
     style = style or rng.choice(["rand", "rand", "ones", "alt", "zero"])
     dts = [d for d in DTS if np.iinfo(d).max >= 2 ** b - 1]
     dtype = dtype or rng.choice(dts)
-    w = w or rng.randint(1, min(per, L))
+    w = w or (rng.randint(1, min(per, L)) if rng.random() < 0.75 else max(1, per - rng.randint(0, min(10, per - 1))))     # windows of nearly a whole register too
     w = min(w, L, per)
     pos = [rng.randrange(L) for _ in range(rng.randint(1, min(2 * per + 3, 40)))]
     if rng.random() < 0.35 and L >= 2:
@@ -152,9 +154,12 @@ def gen_case(rng, b, L, w=None, style=None, dtype=None):
     order = "".join(rng.sample("uiwl", 4)) + rng.choice(["w", "u", "l", ""])
     c = mk_case(b, dtype, values(rng, b, L, style), w, pos, order)
     c["style"] = style
+    if rng.random() < 0.3:
+        c["wtype"] = rng.choice(["int64", "int32", "intp", "uint64", "int16"])      # types that hold the array length (numpy scalar arithmetic with a narrower type overflows by numpy's own rules)
     if rng.random() < 0.25:
-        b2 = rng.choice([x for x in BITS if x != b])
-        c["twin"] = {"b": b2, "vals": values(rng, b2, rng.randint(1, 2 * (64 // b2) + 1), "rand")}
+        b2 = rng.choice([x for x in BITS if x != b] + [b])
+        c["twin"] = {"b": b2, "vals": values(rng, b2, rng.randint(1, 2 * (64 // b2) + 1), "rand"),
+                     "dtype": rng.choice([d for d in DTS if np.iinfo(d).max >= 2 ** b2 - 1])}
     return c
 
 
